@@ -20,6 +20,11 @@ expectation "same code file" which is a consequence of (a), not a computed value
     reproduce code file, and listing / MAP / NoICE / share / macro outputs after masking the date/time stamp.
     -h and -SPLITBYTE are dropped for sources containing `\\{` (number stringification), as the property says.
 
+Findings on the tree as originally pinned: -SPLITBYTE shapes integer text that the assembler uses again - arguments of
+user-defined FUNCTIONs (proposed_fixes/C17-splitbyte-function-args.diff, applied) and the names of SH7000 literal-pool
+symbols (proposed_fixes/C17-splitbyte-sh7000-literal.diff, known finding until applied).  Seen on the way, outside the
+property's list: the `-g ATMEL` debug file of non-AVR targets contains indeterminate bytes.
+
 Not covered: all 2^k subsets (only pairwise interactions are guaranteed), option values beyond the listed ones,
 interactive mode, Windows-style `/` switches, key files referencing key files (an error by design), locales
 that are not installed (only the LANG/LC_ALL strings matter to nlmessages.c).  The vectors never contain
